@@ -79,9 +79,9 @@ func main() {
 			}
 		} else {
 			rep := c.Report()
-			fmt.Printf("evals=%d distinct=%d violations=%d counters=%v\n", rep.Evaluations, rep.Distinct, len(rep.Violations), rep.Counters)
+			fmt.Fprintf(os.Stderr, "evals=%d distinct=%d violations=%d counters=%v\n", rep.Evaluations, rep.Distinct, len(rep.Violations), rep.Counters)
 			for _, v := range rep.Violations {
-				fmt.Printf("  %s x%d: %s\n", v.Signature, v.Count, v.Detail)
+				fmt.Fprintf(os.Stderr, "  %s x%d: %s\n", v.Signature, v.Count, v.Detail)
 			}
 		}
 	case "yieldgen":
